@@ -360,6 +360,37 @@ func checkC02(p *Prog, c *Check) {
 	c.Floor("packet types", len(packetTypeNames()), 15, "15 MQTT packet types")
 }
 
+// specErrorsForState: the encoder's trace on the state, walked against the specification (the per-state part of
+// R2.1–R2.5): the first problem per rule, or why the state could not be evaluated.
+func (p *Prog) specErrorsForState(tn string, st *packetState, wp *packetState) (map[string]string, string) {
+	fill := p.Method(tn, "fill")
+	if fill == nil {
+		return nil, "no encoder"
+	}
+	codeOf := map[string]int64{}
+	for k, n := range specPacketTypes {
+		codeOf[n] = k
+	}
+	evs, _, why := p.encoderTrace(st, fill)
+	if why != "" {
+		return nil, why
+	}
+	obs, why := p.observe(tn, st.Recv, st.Mem, st.Maps, 0)
+	if why != "" {
+		return nil, why
+	}
+	if st.Will != nil {
+		wp = st.Will
+	}
+	w := &specWalk{p: p, tn: tn, st: st, will: wp, obs: obs, evs: evs, errs: map[string]string{}}
+	w.walk(codeOf[tn])
+	out := map[string]string{}
+	for r, e := range w.errs {
+		out[r] = e + "; emitted: " + traceStringShort(evs)
+	}
+	return out, ""
+}
+
 // exported Ident constants: value must be a defined identifier whose name the
 // library associates with the same accessor.
 func checkIdentConstants(p *Prog, c *Check) {
